@@ -143,6 +143,19 @@ def families(prop, tier):
         fams.append(dict(name='staleannounce-gdict', mode='plans', plans=[plan, plan[:-1] + ['relay:T1']],
                          cfg=dict(backend='gdict', gate_store=True, announce=True, nmsgs=1, nrcpt=1, backoff=[0, 3, None],
                                   outcomes=['ok', 'T1'])))
+    if prop in ('C03',):
+        # a storage that fails to record the delivered recipients (the call raises): whatever the queue does with the message
+        # then, it must not offer the settled recipients to the relay again.  (Only the C03 clauses judge this family: what
+        # becomes of a message whose storage is broken is not for C01 / C12 to say.)
+        for fd in ([1], [2], [1, 2]):
+            fams.append(dict(name='markfault-dict', mode='dfs', depth=6 if q else 8, budget=500 if q else 20000,
+                             cfg=dict(backend='dict', gate_store=False, nmsgs=2, nrcpt=3, backoff=[0, 0, None], fail_delivered=fd,
+                                      outcomes=['ok', 'T1', 'map:ott', 'map:pto', 'map:ot', 'map:tt', 'map:t'])))
+    if prop in ('C01', 'C12'):
+        # flush() in the life of a message that keeps failing for a while: flushed, failed again, put back, due, attempted ...
+        fams.append(dict(name='flushretry-dict', mode='dfs', depth=8 if q else 10, budget=600 if q else 30000,
+                         cfg=dict(backend='dict', gate_store=False, nmsgs=2, nrcpt=1, backoff=[5, 5, 5, None], flush=2,
+                                  outcomes=['ok', 'T1'])))
     if prop in ('C12',):
         # a storage that announces its own writes, an envelope split in two, failing first attempts: a message announced between
         # its write and the return of enqueue() is attempted once, and retried at the time the backoff chose
